@@ -540,11 +540,11 @@ inductive TxSpec (fp : FdlParams) (op : OpState) : Peripheral → PTx → Prop
   | validate (p) : p.retry ≤ fp.maxRetry → p.state = .validateConfig →
       TxSpec fp op p (.send { p with retry := p.retry + 1 } (p.diagHeader fp) [])
   | dxDiag (p) : p.retry ≤ fp.maxRetry → (p.state = .preDataExchange ∨ p.state = .dataExchange) →
-      p.diagNeeded = true →
-      TxSpec fp op p (.send { p with diagInFlight := p.diagNeeded, retry := p.retry + 1 } (p.diagHeader fp) [])
+      p.serviceIsDiag = true →
+      TxSpec fp op p (.send { p with diagInFlight := p.serviceIsDiag, retry := p.retry + 1 } (p.diagHeader fp) [])
   | dx (p) : p.retry ≤ fp.maxRetry → (p.state = .preDataExchange ∨ p.state = .dataExchange) →
-      p.diagNeeded = false →
-      TxSpec fp op p (.send { p with diagInFlight := p.diagNeeded, retry := p.retry + 1 } (p.dxHeader fp) (dxPdu op p.piQ))
+      p.serviceIsDiag = false →
+      TxSpec fp op p (.send { p with diagInFlight := p.serviceIsDiag, retry := p.retry + 1 } (p.dxHeader fp) (dxPdu op p.piQ))
 
 theorem tx_spec {fp : FdlParams} (hfp : FpOk fp) {op : OpState} (hop : op ≠ .stop) {p : Peripheral}
     (hI : PInv fp p) : TxSpec fp op p (p.transmit fp op) := by
@@ -568,12 +568,12 @@ theorem tx_spec {fp : FdlParams} (hfp : FpOk fp) {op : OpState} (hop : op ≠ .s
     | validateConfig => rw [transmit_validateConfig fp op p hop hS hs]; exact .validate p hr' hs
     | preDataExchange =>
       rw [transmit_dataExchange fp op p hop hS (Or.inl hs)]
-      rcases Bool.eq_false_or_eq_true p.diagNeeded with hd | hd
+      rcases Bool.eq_false_or_eq_true p.serviceIsDiag with hd | hd
       · simp only; rw [if_pos hd]; exact .dxDiag p hr' (Or.inl hs) hd
       · simp only; rw [if_neg (by simp [hd])]; exact .dx p hr' (Or.inl hs) hd
     | dataExchange =>
       rw [transmit_dataExchange fp op p hop hS (Or.inr hs)]
-      rcases Bool.eq_false_or_eq_true p.diagNeeded with hd | hd
+      rcases Bool.eq_false_or_eq_true p.serviceIsDiag with hd | hd
       · simp only; rw [if_pos hd]; exact .dxDiag p hr' (Or.inr hs) hd
       · simp only; rw [if_neg (by simp [hd])]; exact .dx p hr' (Or.inr hs) hd
 
@@ -918,7 +918,7 @@ structure SG where
   expectFirst : Bool := true
   /-- `request_diagnostics()` was called since the last request -/
   diagReq : Bool := false
-  /-- peripheral state / `diag_needed` when `last` was sent -/
+  /-- peripheral state / `diag_in_flight` (the service chosen) when `last` was sent -/
   snapState : PState := .offline
   snapDiag : Bool := false
   /-- C14: life-cycle according to the events taken: 0 off, 1 online, 2 configured -/
@@ -962,7 +962,7 @@ def sgSend (h : Header) (p' : Peripheral) (x : SG) : SG :=
     s := if k = .setPrm then (if x.s ≥ 1 then 1 else 0) else x.s,
     last := some (k, f), accepted := false, anyReply := false,
     count := if x.last = some (k, f) ∧ x.anyReply = false then x.count + 1 else 1,
-    expectFirst := false, diagReq := false, snapState := p'.state, snapDiag := p'.diagNeeded }
+    expectFirst := false, diagReq := false, snapState := p'.state, snapDiag := p'.diagInFlight }
 
 /-- Ghost update: the peripheral in the slot was declared offline. -/
 def sgOffline (x : SG) : SG := { x with expectFirst := true, s := 0 }
@@ -1741,10 +1741,10 @@ theorem decSlot_back {fp : FdlParams} {op : OpState} {x y : Option (Option Perip
 theorem send_kind {fp : FdlParams} {op : OpState} {p p' : Peripheral} {h : Header} {pdu : Bytes}
     (hs : TxSpec fp op p (.send p' h pdu)) :
     (reqKind h = .diag ∧ pdu = [] ∧ (p.state = .offline ∨ p.state = .validateConfig ∨
-        ((p.state = .preDataExchange ∨ p.state = .dataExchange) ∧ p.diagNeeded = true))) ∨
+        ((p.state = .preDataExchange ∨ p.state = .dataExchange) ∧ p.serviceIsDiag = true))) ∨
     (reqKind h = .setPrm ∧ p.state = .waitForParam ∧ ∃ up, p.opts.userPrm = some up ∧ pdu = setPrmPdu fp p.opts up) ∨
     (reqKind h = .chkCfg ∧ p.state = .waitForConfig ∧ p.opts.config = some pdu) ∨
-    (reqKind h = .dx ∧ (p.state = .preDataExchange ∨ p.state = .dataExchange) ∧ p.diagNeeded = false ∧
+    (reqKind h = .dx ∧ (p.state = .preDataExchange ∨ p.state = .dataExchange) ∧ p.serviceIsDiag = false ∧
         pdu = dxPdu op p.piQ) := by
   cases hs with
   | probe _ hs _ => left; exact ⟨by simp, rfl, Or.inl hs⟩
